@@ -31,6 +31,14 @@ def op_to_labels(op):
         return "[LMethod %s 0 MConnClose]" % c
     if k == "CLOSEOK":
         return "[LMethod %s 0 MConnCloseOk]" % c
+    if k == "ACCEPT":
+        return "[LAccept %s]" % c
+    if k == "STARTOK":
+        return "[LMethod %s 0 (MStartOk %s)]" % (c, cb(f[2]))
+    if k == "TUNEOK":
+        return "[LMethod %s 0 (MTuneOk %s)]" % (c, cb(f[2]))
+    if k == "COPEN":
+        return "[LMethod %s 0 (MConnOpen %s)]" % (c, cb(f[2]))
     h = f[2]
     def M(m):
         return "[LMethod %s %s %s]" % (c, h, m)
